@@ -29,6 +29,7 @@ macro_rules! props {
 props!(c01, c02, c03, c04, c05, c06, c07, c08, c09, c10, c11, c12, c13, c14, c15, c16, c17, c18, c19, c20);
 
 pub mod c01_extra;
+pub mod c01_fuzz;
 
 /// Cases that the orchestrator runs in a process of their own (stream names start with
 /// "iso."), because they are expected to be able to kill the worker.
